@@ -29,6 +29,7 @@ EXPLANATION = (
     "cycles/load delegate to basquin_cycles/basquin_load with arguments in order and no subclass re-implements them. Not "
     "decided: broadcast == element-wise evaluation, the numerical group law of the probability transform.")
 EXPLANATION += (' R-C08-9: the curve data the accessor computes with has a float element type (integer input is converted). R-C08-10: apart from the documented temporaries of the broadcaster no write reaches the curve data of the accessor.')
+EXPLANATION += (' R-C08-11: in basquin_cycles and basquin_load the object whose parameters are used is, on every path, transform_to_failure_probability(<requested probability>) of the curve.')
 ASSUMPTIONS = [
     "k_1, SD, ND, TN, TS positive; np.power/** follow real powers on positive bases",
     "pandas .copy() returns an independent object",
@@ -53,7 +54,7 @@ def _strip(e):
 
 
 def run(ctx):
-    for r in (_r1, _r2, _r3, _r4, _r5, _r6, _r7, _r8, _r9, _r10):
+    for r in (_r1, _r2, _r3, _r4, _r5, _r6, _r7, _r8, _r9, _r10, _r11):
         ctx.attempt(r)
 
 
@@ -269,6 +270,34 @@ def _finite_formula(f, target=None):
     return st[0]
 
 
+def _r11(ctx):
+    """cycles() and load() evaluate the curve transformed to the requested failure probability - on every path: the object
+    whose parameters are broadcast against the argument is the result of transform_to_failure_probability(<the parameter>),
+    never the curve as given (its native probability need not be the default)."""
+    from ..dataflow import reaching_names
+    prog = ctx.prog
+    ctx.rule("R-C08-11", floor=2, what="cycles/load use the curve transformed to the requested probability on every path")
+    for name in ("basquin_cycles", "basquin_load"):
+        f = prog.func(WC + "." + name)
+        fp = [q for q in f.params if "prob" in q]
+        bc = [s_ for s_ in f.node.body if isinstance(s_, ast.Assign) and isinstance(s_.value, ast.Call) and
+              isinstance(s_.value.func, ast.Attribute) and s_.value.func.attr == "broadcast"]
+        if len(bc) != 1 or not fp or not isinstance(bc[0].value.func.value, ast.Name):
+            raise AnalysisError("%s: broadcast of the transformed curve not found" % name)
+        recv = bc[0].value.func.value.id
+        defs = [s_ for s_ in walk_function(f.node) if isinstance(s_, ast.Assign) and any(isinstance(t, ast.Name) and t.id == recv
+                                                                                          for t in s_.targets)]
+        bad = [d for d in defs if not (isinstance(d.value, ast.Call) and isinstance(d.value.func, ast.Attribute) and
+                                       is_self_attr(d.value.func, "transform_to_failure_probability") and d.value.args and
+                                       isinstance(d.value.args[0], ast.Name) and d.value.args[0].id == fp[0])]
+        if defs and not bad:
+            ctx.holds(f, bc[0], "%s: parameters come from transform_to_failure_probability(%s) (%d definition(s))" % (name, fp[0], len(defs)))
+        else:
+            ctx.violated(f, (bad or bc)[0], "%s: on some path the curve is used as given (%s) instead of being transformed to the "
+                         "requested failure probability: for a curve whose native probability is not the requested one the result "
+                         "belongs to another probability" % (name, norm_text((bad or bc)[0])), text="untransformed curve in " + name)
+
+
 def _broadcast_names(f):
     """(quantity, curve) locals from  `q, wc = transformed.broadcast(<param>)`"""
     for s in f.node.body:
@@ -300,8 +329,8 @@ def _r3(ctx):
         e2 = _strip(e)
         if e2 is not e:
             return None
-        if isinstance(e, ast.Attribute) and e.attr in ("SD", "ND"):
-            return e.attr
+        if isinstance(e, ast.Attribute) and isinstance(e.value, ast.Name):
+            return e.attr            # any curve parameter (SD, ND, k_1, ...) is a symbol of its own
         if isinstance(e, ast.Name) and e.id == ld_name:
             return "L"
         if isinstance(e, ast.Name) and e.id == cyc_name:
@@ -642,6 +671,16 @@ UF = "src/pylife/utils/functions.py"
 
 def variants():
     out = []
+
+    def skip_transform_at_default(tree):
+        f = find_func(tree, "WoehlerCurve.basquin_cycles")
+        for i, st in enumerate(f.body):
+            if isinstance(st, ast.Assign) and "transform_to_failure_probability" in ast.unparse(st.value):
+                t = st.targets[0].id
+                f.body[i] = parse_stmt("if failure_probability == 0.5:\n    %s = self\nelse:\n    %s" % (t, ast.unparse(st)))
+                return True
+        return False
+    out.append(witness("cycles() skips the transformation at the default probability", WP, skip_transform_at_default, "R-C08-11"))
 
     def haibach_inplace(tree):
         f = find_func(tree, "WoehlerCurve.miner_haibach")
